@@ -9,6 +9,8 @@
 (*     operands in source order; a number or an array next to a tree is    *)
 (*     coerced (number -> constant, array of trees -> union);              *)
 (*   - comparisons that involve a tree are errors;                         *)
+(*   - `let` bindings shadow the built-in axes x, y, z; `remap` substitutes *)
+(*     the axes lazily (a remap node);                                     *)
 (*   - shape constructors are matched against the shape's fields, which    *)
 (*     are NOT written down here: the table (field names, types, default   *)
 (*     values) is exported from the real crate by reflection at check time *)
@@ -249,13 +251,26 @@ Call(f, args) ==
   ELSE IF f = "axis" /\ n = 1 THEN (IF CoAxis(args[1]).ok THEN AxisV(CoAxis(args[1]).s) ELSE Err)
   ELSE NoModel
 
-RECURSIVE Eval(_)
-Eval(a) ==
-  LET es == [i \in 1..Len(a.e) |-> Eval(a.e[i])]
-      kv == [i \in 1..Len(a.kv) |-> [k |-> a.kv[i].k, v |-> Eval(a.kv[i].v)]]
+(* `remap(shape, x, y, z)` / `remap(shape, x, y)`: the shape is coerced like any tree operand, the new axes must be trees *)
+RemapT(t, x, y, z) == Term("remap", "", NoQ, <<t, x, y, z>>, <<>>)
+Remap(args) ==
+  IF CanTree(args[1]) /\ \A i \in 2..Len(args) : args[i].k = "tree"
+  THEN TreeV(RemapT(ToTree(args[1]), args[2].t[1], args[3].t[1], IF Len(args) = 4 THEN args[4].t[1] ELSE VarT("z")))
+  ELSE Err
+
+(* env: the script's own `let` bindings, innermost last; x, y, z fall back to the axes only when not bound *)
+Bound(env, name) == \E i \in 1..Len(env) : env[i].k = name
+Lookup(env, name) == env[CHOOSE i \in 1..Len(env) : env[i].k = name /\ \A j \in (i + 1)..Len(env) : env[j].k # name].v
+RECURSIVE Ev(_, _)
+Ev(a, env) ==
+  LET es == [i \in 1..Len(a.e) |-> Ev(a.e[i], env)]
+      kv == [i \in 1..Len(a.kv) |-> [k |-> a.kv[i].k, v |-> Ev(a.kv[i].v, env)]]
       bad == (\E i \in 1..Len(a.e) : es[i].k = "err") \/ (\E i \in 1..Len(a.kv) : kv[i].v.k = "err")
       nomodel == (\E i \in 1..Len(a.e) : es[i].k = "nomodel") \/ (\E i \in 1..Len(a.kv) : kv[i].v.k = "nomodel")
-  IN IF a.a = "var" THEN TreeV(VarT(a.s))
+  IN IF a.a = "var" THEN (IF Bound(env, a.s) THEN Lookup(env, a.s)
+                          ELSE IF a.s \in {"x", "y", "z"} THEN TreeV(VarT(a.s)) ELSE Err)
+     ELSE IF a.a = "let" THEN LET v == Ev(a.e[1], env) IN            \* let NAME = e1; e2
+                              IF v.k \in {"err", "nomodel"} THEN v ELSE Ev(a.e[2], Append(env, [k |-> a.s, v |-> v]))
      ELSE IF a.a = "int" THEN IntV(Q(a.n, 1))
      ELSE IF a.a = "flt" THEN FltV(Norm(Q(a.n, a.d)))
      ELSE IF a.a = "str" THEN StrV(a.s)
@@ -267,8 +282,10 @@ Eval(a) ==
             [] a.a = "neg" -> Neg(es[1])
             [] a.a = "infix" -> Bin(a.s, es[1], es[2])
             [] a.a = "cmp" -> Cmp(es[1], es[2])
+            [] a.a \in {"call", "meth"} /\ a.s = "remap" /\ Len(es) \in {3, 4} -> Remap(es)
             [] a.a \in {"call", "meth"} -> Call(a.s, es)
             [] OTHER -> NoModel
+Eval(a) == Ev(a, <<>>)
 
 RECURSIVE HasCmp(_)
 HasCmp(a) == a.a = "cmp" \/ (\E i \in 1..Len(a.e) : HasCmp(a.e[i])) \/ (\E i \in 1..Len(a.kv) : HasCmp(a.kv[i].v))
@@ -291,4 +308,5 @@ AInfix(op, l, r) == A("infix", op, 0, 0, <<l, r>>, <<>>)
 ACmp(op, l, r) == A("cmp", op, 0, 0, <<l, r>>, <<>>)
 ACall(f, e) == A("call", f, 0, 0, e, <<>>)
 AMeth(f, e) == A("meth", f, 0, 0, e, <<>>)     \* e[1] is the receiver
+ALet(name, v, body) == A("let", name, 0, 0, <<v, body>>, <<>>)   \* only at the top of a script
 =============================================================================
